@@ -649,6 +649,20 @@ func init() {
 						}
 					}
 				}
+				// `*ctx = EntryContext{...}` zeroes every field the literal does not name: the marker becomes false
+				if !resetOK && cd.want {
+					if whole, _ := wholeObjectStore(reset); whole && wholeObjectSource(reset) == nil {
+						named := false
+						for _, s := range fieldStores(c.P, ectx, cd.field) {
+							if s.fn == reset {
+								named = true
+							}
+						}
+						if !named {
+							resetOK = true
+						}
+					}
+				}
 				if !resetOK {
 					reasons = append(reasons, fmt.Sprintf("field %s: EntryContext.Reset does not store %v", cd.field, !cd.want))
 					continue
